@@ -48,7 +48,9 @@ EXPECTED_PROBES = ["multi_chunk_array_written", "zero_dim_array", "empty_array_o
                    "overwrite_existing_zip", "overwrite_existing_dir", "auto_store_suffix_appended",
                    "other_process_restart", "listing_order_nonidentity", "completion_order_nonfifo",
                    "kind_tensor", "kind_module", "kind_obj_in_container", "kind_npscalar",
-                   "kind_hybrid_module", "dot_prefixed_name", "kind_qvector", "kind_qdataset"]
+                   "kind_hybrid_module", "dot_prefixed_name", "kind_qvector", "kind_qdataset",
+                   "one_object_under_two_names", "unusual_path_shape", "bulk_str", "bulk_dict",
+                   "bulk_intlist", "bulk_attrs"]
 
 
 def setup():
@@ -57,20 +59,51 @@ def setup():
 
 def gen(rng: Rng, tier, i):
     g, opts = graphs.gen_graph(rng.fork("graph"), tier)
+    x = rng.fork("extremes")
+    if g["cls"] not in ("AttrsLike", "Hybrid") and x.chance(0.08):
+        used = {n for n, _ in g["attrs"]}
+        what, n = x.pick([("str", 4097), ("str", 70000), ("strlist", 300), ("mixedlist", 257),
+                          ("intlist", 70000), ("floatlist_integral", 1000), ("dict", 1100), ("nest", 12),
+                          ("tuplelist", 120), ("attrs", 300)])
+        if what == "attrs":       # an object with hundreds of attributes
+            for q in range(n):
+                g["attrs"].append([f"m{q}", {"k": "int", "v": q} if q % 3 else {"k": "str", "v": f"v{q}"}])
+        else:
+            g["attrs"].insert(x.randrange(len(g["attrs"]) + 1),
+                              [graphs.gen_name(x, used), {"k": "bulk", "what": what, "n": n,
+                                                           "ch": x.pick(["x", "é", "名"])}])
+    # the SAME python object reachable under two root attribute names
+    alias = None
+    roots = [n for n, s_ in g["attrs"] if s_["k"] in ("obj", "nd", "list", "dict", "tensor", "set", "tuple")]
+    if roots and g["cls"] not in ("AttrsLike", "Hybrid") and x.chance(0.12):
+        alias = [x.pick(roots), graphs.gen_name(x, {n for n, _ in g["attrs"]})]
     cfgs = []
     for store in ("zip", "dir"):
         r = rng.fork(("cfg", store))
         if store == "zip":
             t = r.pick([{"name": "o.zip", "store": "zip"}, {"name": "o.zip", "store": "auto"},
                         {"name": "o", "store": "zip"}])
+            if r.fork("shape").chance(0.2):      # path shapes: dots, upper-case suffix, unicode, long
+                t = r.fork("shape").pick([
+                    {"name": "dot.in.name", "store": "zip"}, {"name": "o2.ZIP", "store": "zip"},
+                    {"name": "sub.d/o.zip", "store": "auto"}, {"name": "sub.d/o", "store": "zip"},
+                    {"name": "ü名 o.zip", "store": "auto"}, {"name": "b.zip.bak", "store": "zip"},
+                    {"name": "L" * 120 + ".zip", "store": "zip"}])
         else:
             t = r.pick([{"name": "o", "store": "dir"}, {"name": "o", "store": "auto"}])
+            if r.fork("shape").chance(0.2):
+                t = r.fork("shape").pick([
+                    {"name": "sub.d/p", "store": "dir"}, {"name": "sub.d/p", "store": "auto"},
+                    {"name": "ü名 dir", "store": "dir"}, {"name": "trail/", "store": "dir"},
+                    {"name": "D" * 120, "store": "auto"}])
         mode = r.pick(["w", "o", "o"])
         pre = "absent" if mode == "w" else r.pick(["absent", "object", "file", "staledir"])
+        if t["name"].endswith("/") and pre == "file":
+            pre = "staledir"     # 'name/' over a regular file 'name' is not a usable path for the OS
         cfgs.append({**t, "mode": mode, "pre": pre, "level": r.pick([None] + list(range(10))),
                      "path_kind": r.pick(["str", "Path", "str", "Path", "rel", "relPath"])})
-    return {"graph": g, "cfgs": cfgs, "env": serio.gen_env(rng.fork("env")),
-            "other_process": rng.chance(0.08)}
+    return {"graph": g, "cfgs": cfgs, "env": serio.gen_env(rng.fork("env")), "alias": alias,
+            "other_process": rng.chance(0.08) and alias is None}
 
 
 def poison_freed_memory():
@@ -134,10 +167,25 @@ def _other_process_load(path, spec, env):
     raise NotImplementedError
 
 
+def _build(plan):
+    o = graphs.build(plan["graph"])
+    al = plan.get("alias")
+    if al and al[0] in vars(o) and al[1] not in vars(o):
+        o.__dict__[al[1]] = o.__dict__[al[0]]      # one object, two names
+    return o
+
+
 def run(plan):
     res = new_result()
     spec = plan["graph"]
     _probe_graph(spec, res["probes"])
+    if plan.get("alias"):
+        bump(res["probes"], "one_object_under_two_names")
+    for _, s_ in graphs.walk(spec):
+        if s_.get("k") == "bulk":
+            bump(res["probes"], "bulk_" + s_["what"])
+    if len(spec["attrs"]) >= 200:
+        bump(res["probes"], "bulk_attrs")
     helper = None
     if plan.get("other_process"):
         helper = _ForkedLoader(plan["env"])  # forked now: has never seen the object graph
@@ -148,11 +196,14 @@ def run(plan):
             for cfg in plan["cfgs"]:
                 kind = "zip" if _final(cfg).endswith(".zip") else "dir"
                 tag = f"{kind}:{cfg['store']}:lvl={cfg['level']}:{cfg['mode']}:{cfg['pre']}"
-                tgt = os.path.join(E.work, _final(cfg))
+                tgt = os.path.join(E.work, _final(cfg)).rstrip("/")
+                os.makedirs(os.path.dirname(tgt), exist_ok=True)
+                if cfg["name"] not in ("o", "o.zip"):
+                    bump(res["probes"], "unusual_path_shape")
                 _setup_pre(E, cfg, tgt, res["probes"])
                 if cfg["store"] == "zip" and not cfg["name"].endswith(".zip"):
                     bump(res["probes"], "auto_store_suffix_appended")
-                obj = graphs.build(spec)
+                obj = _build(plan)
                 _, exc, sc = E.save(obj, E.path(cfg["name"], cfg["path_kind"]), mode=cfg["mode"],
                                     store=cfg["store"], compression_level=cfg["level"])
                 del obj
@@ -178,7 +229,7 @@ def run(plan):
                         "load_raised", f"{tag}: load() raised {exc!r}",
                         f"load_raised:{type(exc).__name__}:{_exc_class(exc)}"))
                     continue
-                exp = graphs.build(spec)
+                exp = _build(plan)
                 d = graphs.equal(exp, got)
                 if d:
                     res["violations"].append(Violation(
@@ -358,6 +409,20 @@ def shrink(plan):
     if plan.get("other_process"):
         p = copy.deepcopy(plan)
         p["other_process"] = False
+        yield p
+    if plan.get("alias"):
+        p = copy.deepcopy(plan)
+        p["alias"] = None
+        yield p
+    for i, c in enumerate(plan["cfgs"]):
+        if c["name"] not in ("o", "o.zip"):
+            p = copy.deepcopy(plan)
+            p["cfgs"][i]["name"] = "o.zip" if _final(c).endswith(".zip") else "o"
+            yield p
+    if len(plan["graph"]["attrs"]) >= 200:
+        p = copy.deepcopy(plan)
+        p["graph"]["attrs"] = [a for a in p["graph"]["attrs"] if not (
+            a[0].startswith("m") and a[0][1:].isdigit())]
         yield p
     if plan["env"] != serio.DEFAULT_ENV:
         p = copy.deepcopy(plan)
